@@ -53,6 +53,18 @@ def efficienciesFromCounts (c rs ri : α) : Efficiencies α :=
 def efficiencies (corr : α) (g : Steps2D α) (jsi singlesS singlesI : List α) : Efficiencies α :=
   efficienciesFromCounts (counts corr g jsi) (counts corr g singlesS) (counts corr g singlesI)
 
+/-- `JointSpectrum::jsi_singles` at one frequency pair from `raw = jsi_singles_raw(ωs, ωi)` and
+`n = jsi_singles_normalization(ωs, ωi)`: a raw value that compares equal to zero (outside the validity box of
+`invalid_frequencies`, below the pump-spectrum threshold) short-circuits — the normalisation, which is undefined
+(NaN) where the Sellmeier equations are, is not multiplied in. -/
+def jsiSinglesPoint (raw n : α) : α :=
+  if raw == (0.0 : α) then (0.0 : α) else n * raw
+
+/-- `JointSpectrum::jsi` at one frequency pair from `jsa_raw = re + i·im` and `n = jsi_normalization(ωs, ωi)`:
+`jsa == Complex::zero()` short-circuits, else `n · norm_sqr(jsa)` (`re·re + im·im` in num-complex). -/
+def jsiPoint (re im n : α) : α :=
+  if re == (0.0 : α) && im == (0.0 : α) then (0.0 : α) else n * (re * re + im * im)
+
 /-- the pinned tree's symmetric efficiency -/
 def symmetricPinned (c rs ri : α) : α :=
   if rs == (0.0 : α) || ri == (0.0 : α) then (0.0 : α) else c / Transc.sqrt (rs * ri)
